@@ -7,9 +7,30 @@ ids = [json.loads(l)['id'] for l in open(os.path.join(ROOT, 'properties.jsonl'))
 
 # id -> (technique, level text, level note, design ref)
 CHECKS = {
+ 'C07': ("model-based monitor: both real register stores (emu.Wavefront; the timing CU's SimpleRegisterFiles behind wavefront.Wavefront + CURegFileAccessor, 2-6 co-resident wavefronts placed by the real WfDispatcher) driven with the same seeded operand read/write histories, operands harvested from the real decoder, compared with a flat array-of-cells model after every operation and by full sweeps",
+         "Held on N operand read/write histories (quick 200x400 + 714 canonical cases + 486 probes; thorough 5000x2000) over s0-s101, v0-v255 x 64 lanes, VCC/EXEC pairs and halves, SCC, M0, widths 1-16 dwords, wavefront placements incl. adjacent/last-slot: every read equals the flat model, every write changes exactly the named cells in both stores, emulation and timing agree. One open known finding (VCC_LO read with RegCount 0 in emulation). Exploration, not proof.",
+         "Trusts insts.Disassembler for operand construction (verified per harvest), the typed getters / raw SimpleRegisterFile.Read as independent read-back path, the harness' re-implementation of the dispatcher's placement arithmetic.", "DESIGN.md §3 C07"),
+ 'C12': ("race detector + exact logical deadlock monitor at tagged yield points + order-revealing workloads (non-commuting kernel chains per queue) + porcupine linearizability check of the bare queue, under PRNG delays and targeted holds at the driver's hand-off points; one child process per batch",
+         "Held on N multi-goroutine driver scenarios (emulation and r9nano timing, 1-2 GPUs, 1-6 application goroutines, several queues, enqueue-then-drain and blocking styles, two goroutines draining one queue) and on long loops of blocking copies, under -race with delay injection: every read-back equals the commands applied in submission order, guards untouched, every drain returned (deadlock predicate: all application goroutines parked in Wait, runAsync parked in select, no engine goroutine), no race report in mgpusim code; recorded Enqueue/Peek/Dequeue/NumCommand histories of driver.CommandQueue are linearizable. One open known finding (second queue launches a cached code object before its upload ran). Exploration of schedules, not proof.",
+         "Trusts the Go race detector and runtime.Stack goroutine states, the verif yield hooks (no-ops without the tag), the hand-assembled kernels (validated against the real disassembler and both execution modes), porcupine. Race reports whose both accesses are inside the akita module (lazy id generator) are listed in the evidence, not judged.", "DESIGN.md §3 C12"),
+ 'C13': ("differential runtime check of the real loader (all public entry points) against harness-generated ELF64 code objects whose description is the ground truth (incl. header-mimicking code, symbol reordering / removal metamorphic relations) and against all 77 shipped .hsaco judged by an independent debug/elf extractor",
+         "Held on N synthetic code objects (quick 407 files / 1183 kernels, thorough 50 007) and the 131 shipped kernels: Data byte-exact, version, entry offset, segment sizes, rsrc words, register counts, enable flags equal to the file's contents modulo the loader's documented V5 normalisations; invariant under symbol order and presence of other kernels. Exploration, not proof.",
+         "Trusts Go debug/elf, the harness' ELF writer (each file validated with debug/elf first), the LLVM layouts of amd_kernel_code_t / kernel_descriptor_t (cross-checked against the 73 shipped descriptors), the encoded list of deliberate normalisations.", "DESIGN.md §3 C13"),
+ 'C15': ("offline trace checker over recorded Top/Bottom/Control port events of the real reorder buffer between scripted requesters and a delaying / permuting / back-pressuring fake memory, with DiscardTransactions/Restart injected at random points; logical deadlock criterion at engine idle",
+         "Held on N executions (quick 20 004 scenarios, thorough 600 004) of the real rob.ReorderBuffer under seeded request streams, capacities 1-128, widths 1-8, peer buffers 1-16, lower-level latency/permutation/back-pressure and 0-3 flush/restart points: responses in acceptance order, exactly one per accepted non-discarded request, requester's id and the lower level's bytes, forwarded copies unchanged, in-flight <= capacity, nothing delivered for discarded requests, traffic after restart served. Exploration, not proof.",
+         "Trusts akita port hooks for event order, the fake peers (memkit) and the trace classification (accepted = retrieved outside a Discard..Restart interval); unique (PID,address) per request; control handshake as the command processor drives it.", "DESIGN.md §3 C15"),
+ 'C16': ("offline trace checker over recorded Top/Bottom/Translation/Control port events of the real address translator between scripted requesters, a fake translation service owning the page table (same virtual pages under several PIDs) and a fake memory, all delaying / permuting / back-pressuring, with flush/restart injected; logical stuck criterion at engine idle",
+         "Held on N executions (quick 15 004 scenarios, thorough 400 004) of the real addresstranslator.Comp: every accepted non-discarded access forwarded exactly once with address = PAddr of its own (PID, virtual page) + page offset and unchanged size/data/mask, answered exactly once to its requester with the original id and the memory's data, with coalesced lookups, out-of-order translation replies meeting a full bottom port, page sizes 2^12-2^16, widths 1-32, flush/restart. Exploration, not proof.",
+         "Trusts akita port hooks, the harness' fake peers and page table; unique (PID,vaddr) per request, distinct physical pages, accesses within one page, single-port mappers.", "DESIGN.md §3 C16"),
  'C17': ("reference-model monitor over recorded port trace (flat byte array replayed in observed arrival order), real component under random streams/configurations",
          "Held on N executions of the real simplebankedmemory component under seeded random request streams, timings and configurations (banks, interleave, pipeline width/depth/latency, row buffer, buffers, requester back-pressure): every request answered exactly once, every read byte equal to the flat model at its arrival point, final storage equal to the model. Exploration, not proof: the stream/configuration space is sampled.",
          "Trusts akita's port hooks for arrival order, the harness' flat model and generator; accesses stay inside one 64-byte line.", "DESIGN.md §3 C17"),
+ 'C19': ("snapshot + reference-model monitor and port trace checker: real PageMigrationControllers with ideal or hostile memories under seeded migration sequences; real driver.Driver with a real page table between fake command processors and a fake MMU performing the migration handshake",
+         "Held on N controller scenarios (destination page equals the source page at request time, every other byte of all memories unchanged, chunk pulls/writes cover the page exactly once, one completion per request after the last write, requests arriving during a migration served afterwards) and M driver handshakes (stage order, recipients, one reply per MMU request, page-table post-condition via PageTable.Find, no other mapping changed). Exploration, not proof.",
+         "Trusts akita port hooks and serial engine, the fake memory / command processors / MMU (modelled on cp/ctrlMiddleware.go, driver.go, akita's mmu.go), the VerifDeviceIDByPAddr hook; the migration path is exercised through Driver.Tick without Driver.Run(); the shipped platform does not wire the controller, so there is no end-to-end run.", "DESIGN.md §3 C19"),
+ 'C20': ("conservation + termination monitor and parse round-trip: generated accel-sim traces (seeded + canonical) parsed by the shipped reader and compared field by field with their description; the shipped Runner executed on platforms from the public builders while port hooks, the conservation getters and the verif VerifPending accessors are evaluated when Engine.Run() returns; termination by an engine-event bound",
+         "Held on N (trace, platform shape) pairs (quick 313 / ~1 M instruction lines / 116 shapes; thorough 20 012): parse(serialise(t)) = t on every exported field; warps and instructions seen equal the trace's, every kernel/block/warp delivered and reported finished exactly once, all components idle and no unfinished kernel when the engine stops, within the event bound. Exploration, not proof.",
+         "Trusts the harness' trace serialiser and reference parser (cross-checked on the shipped sample), akita's engine/port hooks, the read-only VerifPending accessors, child-process batch protocol.", "DESIGN.md §3 C20"),
 }
 NA_REASON = {}
 hooks_commits = subprocess.run(['git','-C','/repo','log','--format=%h %s','--grep=^verif hooks'],capture_output=True,text=True).stdout.strip().splitlines()
